@@ -572,7 +572,7 @@ def expand_net(st, seed):
         r.update(nin=nin, nout=nout, it=st["it"], ot=st["ot"], pform=st["pform"], tform=st["tform"], depth=st["depth"], act=st["act"],
                  th=[rng.choice([1, 2, -1]), rng.choice([2, 3, -2])], layers=_mlp_layers(rng, nin, nout, st["depth"], st["act"]),
                  ins=[[rng.randint(-2, 2) for _ in range(nin)] for _ in range(3)],
-                 oslice={"none": [], "first": [1, 1], "last2": [2, 3]}[st["shared"]], shared=st["shared"])
+                 oslice={"none": [], "first": [1, 1], "last2": [2, 3], "lastint": [nout, nout], "firstint": [1, 1]}[st["shared"]], shared=st["shared"])
         if st["wrapper"] == "hyper":
             shapes = [dict(o=len(L["W"]), i=len(L["W"][0]), act=L["act"]) for L in r["layers"]]
             P = sum(s["o"] * s["i"] + s["o"] for s in shapes)
